@@ -131,6 +131,16 @@ def plan(seed, subbatch):
             m["common"].pop("timeframe_fill", None)
         members[cfg.randint(0, len(members) - 1)]["common"]["timeframe"] = tf
         relation += "+level_tf"
+    # Hexital-level options meeting the pair: the solo twins are Hexitals with the same options
+    fx = sub_rng(seed, "features")
+    if fx.random() < 0.15:
+        hexcfg["candlestick_type"] = "HA"
+        fired["hexital_heikin_ashi"] += 1
+    if tf and fx.random() < 0.15:
+        hexcfg["timeframe_fill"] = True
+        fired["hexital_timeframe_fill"] += 1
+    # (no lifespan here: a member purged or recalculated by an action restarts over the retained window only,
+    # which legitimately differs from its never-purged solo twin)
     fired["relation_" + relation] += 1
     fired["operator_ops"] += n_ops
     return {"format": 1, "property": ID, "seed": seed, "subbatch": subbatch,
